@@ -32,6 +32,7 @@ type vRandGen struct {
 	conc   *vConc
 	nextIx map[string]uint64
 	usedID map[uint64]bool
+	ping   bool // the next stream is a ping-pong session
 }
 
 func vNewRandGen(seed int64) *vRandGen {
@@ -93,9 +94,16 @@ func (g *vRandGen) stream(id uint64, pool int, start time.Time, caps []string, l
 	if long {
 		np = 250 + rng.Intn(400)
 	}
+	// a long interactive session: thousands of direction changes, a few bytes each - the segmentation information of the
+	// stream alone is larger than the 4 KiB buffers the writer and the merger copy it through
+	pingpong := (long && rng.Intn(3) == 0) || g.ping
+	g.ping = false
+	if pingpong {
+		np = 4400 + rng.Intn(1200)
+	}
 	t := start
 	cap := caps[rng.Intn(len(caps))]
-	sparseData := long || rng.Intn(3) == 0
+	sparseData := (long && !pingpong) || rng.Intn(3) == 0
 	for i := 0; i < np; i++ {
 		if i > 0 {
 			gap := vGaps[rng.Intn(len(vGaps))]
@@ -116,10 +124,18 @@ func (g *vRandGen) stream(id uint64, pool int, start time.Time, caps []string, l
 		if rng.Intn(2) == 0 {
 			dir = reassembly.TCPDirServerToClient
 		}
+		if pingpong && i%2 == 1 {
+			dir = reassembly.TCPDirServerToClient
+		} else if pingpong {
+			dir = reassembly.TCPDirClientToServer
+		}
 		s.PacketDirections = append(s.PacketDirections, dir)
 		sz := vSizes[rng.Intn(len(vSizes))]
 		if sparseData && rng.Intn(4) != 0 {
 			sz = -1
+		}
+		if pingpong {
+			sz = 1 + rng.Intn(3)
 		}
 		if sz >= 0 {
 			s.Data = append(s.Data, streams.StreamData{Bytes: vPayload(rng, sz, fmt.Sprintf("<R%d.%d>", id, i)), PacketIndex: uint64(i)})
@@ -550,6 +566,7 @@ func vRandomStackOps(g *vRandGen) ([]vOp, func(op *vOp, version int) []vStreamC)
 	caps := []string{"a.pcap", "b.pcap"}
 	g.nextIx["a.pcap"], g.nextIx["b.pcap"] = 0, 1<<32-20
 	files := [][]vStreamC{}
+	withPing := rng.Intn(4) == 0
 	for f := 0; f < nFiles; f++ {
 		t := vT0.Add(time.Duration(rng.Intn(7)-3) * time.Second)
 		cs := []vStreamC{}
@@ -560,6 +577,8 @@ func vRandomStackOps(g *vRandGen) ([]vOp, func(op *vOp, version int) []vStreamC)
 			}
 			used[id] = true
 			t2 := t.Add(time.Duration(rng.Intn(5000)-2000) * time.Millisecond)
+			// every fourth stack has a ping-pong stream in its oldest file, with further streams copied after it
+			g.ping = withPing && f == 0 && len(cs) == 0
 			cs = append(cs, g.stream(id, pool, t2, caps, false))
 		}
 		if len(cs) == 0 {
